@@ -267,11 +267,23 @@ def suffix_of(rem, K):
     return z3.And(z3.Length(rem) <= z3.Length(K), HM.tail(K, z3.Length(K) - z3.Length(rem)) == rem)
 
 
+hchild = z3.Function("hchild", HNode, z3.IntSort(), HRef)      # the child reference in slot j (opaque; see reveal_child_at)
+
+
 def child_at(D, j):
+    return hchild(D, j)
+
+
+def child_at_body(D, j):
     t = HM.child(D, 15)
     for i in reversed(range(15)):
         t = z3.If(j == i, HM.child(D, i), t)
     return t
+
+
+def reveal_child_at(E, D, j):
+    """definition of hchild at (D, j)"""
+    E.assume(mk_bool(hchild(D, j) == child_at_body(D, j)))
 
 
 def one_hop(D0, K):
@@ -295,6 +307,7 @@ def tf_inv(E, fr, _i):
     from contracts import seqlemmas as SL
     SL.use(E, "concat_empty", rem, ks)
     oh = one_hop(D0, K)
+    reveal_child_at(E, D0, K[0])
     return [("view", mk_bool(view_eq(E, node, rem, D0, K, ks))),
             ("remaining-is-a-suffix", mk_bool(suffix_of(rem, K))),
             ("node-well-formed", mk_bool(HM.hwfp(Dn))),
@@ -323,6 +336,8 @@ def tf_cases(E, ctx):
         shape = z3.Implies(z3.Length(rt) > 0,
                            z3.Or(z3.And(HNode.is_HLeaf(Dn), z3.PrefixOf(rt, HNode.lpath(Dn))),
                                  z3.And(HNode.is_HExt(Dn), z3.PrefixOf(rt, HNode.epath(Dn)), rt != HNode.epath(Dn))))
+        if unit_mode:
+            reveal_child_at(E, D0, K[0])
         out = [("remaining-is-a-suffix", mk_bool(suffix_of(rt, K))), ("stops-only-inside-a-path", mk_bool(shape)),
                ("node-well-formed", mk_bool(HM.hwfp(Dn))),
                ("one-hop-reaches-the-child", mk_bool(z3.Implies(one_hop(D0, K), z3.And(z3.Length(rt) == 0,
